@@ -279,19 +279,4 @@ Definition known_alpn (h : hello) : bool :=
       negb ((2 <=? len a) && alnum b0 && alnum (last a b0) && utf8 a)
   | _ => false
   end.
-(* K-version: the version code taken from the legacy field is SSL 2.0 (code prints 00, table: s2), or the
-   version code (legacy field or highest non-GREASE supported_versions entry) is a DTLS code (code prints
-   00, table: d1/d2/d3) *)
-Definition dtls_code (c : N) : bool := (c =? 0xfeff) || (c =? 0xfefd) || (c =? 0xfefc).
-Definition legacy_corner (h : hello) : bool := dtls_code (h_version h) || (h_version h =? 0x0002).
-Definition known_version (h : hello) : bool :=
-  match supported_versions h with
-  | Some vs => match maximum (non_grease vs) with Some m => dtls_code m | None => legacy_corner h end
-  | None => legacy_corner h
-  end.
-(* K-ext: an extension type with (type & 0x0f0f) = 0x0a0a that is not one of the sixteen GREASE values
-   (tls-parser classifies it as GREASE and the code drops it from list and count) *)
-Definition known_pseudo_grease (h : hello) : bool :=
-  existsb (fun t => (N.land t 0x0f0f =? 0x0a0a) && negb (grease t)) (ext_types h).
-
-Definition known (h : hello) : bool := known_alpn h || known_version h || known_pseudo_grease h.
+Definition known (h : hello) : bool := known_alpn h.
